@@ -83,16 +83,30 @@ class Lab:
     def gcm_fn(self, k):
         key = (k, bool(self.table.get(k, {}).get("yield_from")))
         if key not in self.gcm_fns:
-            ns: Dict[str, Any] = {}
+            class Marker:
+                def __enter__(s):
+                    return s
+
+                def __exit__(s, *a):
+                    return False
+
+            mk = Marker()
+            ns: Dict[str, Any] = {"MK": mk}
+            # the generator's own (outermost) frame holds a manager: a hook that looks at frame.contexts — the natural way to
+            # find what a wrapper wraps — must see it, exiting or not
             if self.table.get(k, {}).get("yield_from"):
                 # the manager's generator is suspended inside a helper it delegates to: inner_stack has two frames
-                exec(f"def helper_{k}():\n    yield {k}\ndef gcm_{k}():\n    yield from helper_{k}()\n", ns)
+                exec(f"def helper_{k}():\n    yield {k}\ndef gcm_{k}():\n    with MK:\n        yield from helper_{k}()\n", ns)
             else:
-                exec(f"def gcm_{k}():\n    yield {k}\n", ns)
+                exec(f"def gcm_{k}():\n    with MK:\n        yield {k}\n", ns)
             fn = ns[f"gcm_{k}"]
             lab = self
 
-            def hook(frame, ctx, k=k):
+            def hook(frame, ctx, k=k, mk=mk):
+                objs = [c.obj for c in frame.contexts]
+                if frame.funcname != f"gcm_{k}" or objs != [mk]:
+                    lab.hook_problems.append(f"unwrap_context_generator hook of gcm_{k} (context exiting={ctx.is_exiting}) was handed frame "
+                                             f"{frame.funcname} with contexts {objs}; expected the generator's own frame with its one manager")
                 return lab.unwrap_result(lab.table[k].get("uw"))
 
             self.ss.unwrap_context_generator.register(fn, hook)
@@ -122,6 +136,7 @@ class Lab:
                     pass
         self.objs, self.ids = {}, {}
         self.trace = []
+        self.hook_problems = []
 
     def logging(self):
         """Wrap the hook entry points fill_context uses, to record E/U calls."""
@@ -132,11 +147,13 @@ class Lab:
                 s.saved = (ex.elaborate_context, ex.unwrap_context)
 
                 def E(mgr, ctx):
-                    lab.trace.append(f"E{lab.ids.get(id(mgr), '?')}")
+                    if type(mgr).__name__ != "Marker":        # the managers inside the generators are not part of the chain
+                        lab.trace.append(f"E{lab.ids.get(id(mgr), '?')}")
                     return s.saved[0](mgr, ctx)
 
                 def U(mgr, ctx):
-                    lab.trace.append(f"U{lab.ids.get(id(mgr), '?')}")
+                    if type(mgr).__name__ != "Marker":
+                        lab.trace.append(f"U{lab.ids.get(id(mgr), '?')}")
                     return s.saved[1](mgr, ctx)
 
                 ex.elaborate_context, ex.unwrap_context = E, U
@@ -332,6 +349,9 @@ class C11(PropCheck):
                 f"desc={desc} trace=[{' '.join(trace)}] {outcome}")
         if want != real:
             return f"fill_context ({case['where']} extract) deviates from the documented loop: expected [{want}] observed [{real}]"
+        hp = self._hook_problems.get(id(case))
+        if hp:
+            return hp[0]
         return None
 
     def nontrivial_key(self, case, real):
@@ -353,4 +373,16 @@ class C11(PropCheck):
         return d
 
 
+_orig_run = C11.run_real
+
+
+def _run(self, case):
+    if not hasattr(self, "_hook_problems"):
+        self._hook_problems = {}
+    r = _orig_run(self, case)
+    self._hook_problems[id(case)] = list(self.lab.hook_problems)
+    return r
+
+
+C11.run_real = _run  # type: ignore[assignment]
 CHECK = C11()
